@@ -59,8 +59,9 @@ DomOK(e) ==
     [] e.op = "pb_matrix" -> AlphOK(e.a[2]) /\ TextOK(e.a[1]) /\ InAlph(e.a[2], e.a[3]) /\ e.a[6] = StdName("pb")
     [] e.op = "list_db" -> TRUE
     [] e.op = "get_score_by_code" -> Dom_Matrix(e.a[1]) /\ e.a[2] >= 0 /\ e.a[3] >= 0
-    [] e.op \in {"get_score", "scores", "codes", "table", "is_symmetric", "transpose", "eq_foreign", "str",
-                 "roundtrip"} -> Dom_Matrix(e.a[1])
+    [] e.op \in {"get_score", "scores", "codes", "table", "is_symmetric", "transpose", "eq_foreign", "str"}
+         -> Dom_Matrix(e.a[1])
+    [] e.op = "roundtrip" -> Dom_Matrix(e.a[1]) /\ Dom_Renderable(e.a[1])
     [] e.op = "eq" -> Dom_Matrix(e.a[1]) /\ Dom_Matrix(e.a[2])
     [] e.op = "as_positional" -> Dom_Matrix(e.a[1])
     [] e.op = "mapper_new" -> AlphOK(e.a[1]) /\ AlphOK(e.a[2])
